@@ -5,10 +5,13 @@ use crate::cln_plugin::{Builder, Plugin};
 use crate::email::EmailNotificationService;
 use crate::messages::BlockAddedNotification;
 use crate::store::ClnDatastore;
+#[cfg(breez_trampoline_verif)]
+use crate::verif::seam::{Stdin, Stdout};
 use crate::{
     htlc_manager::HtlcManager, messages::HtlcAcceptedRequest, payment_provider::PaymentProvider,
 };
 use serde_json::Value;
+#[cfg(not(breez_trampoline_verif))]
 use tokio::io::{Stdin, Stdout};
 use tracing::error;
 
@@ -43,6 +46,8 @@ pub fn init<P>() -> Builder<PluginState<P>, Stdin, Stdout>
 where
     P: PaymentProvider + Clone + Send + Sync + 'static,
 {
+    #[cfg(breez_trampoline_verif)]
+    use crate::verif::seam::tokio;
     Builder::new(tokio::io::stdin(), tokio::io::stdout())
         .hook("htlc_accepted", on_htlc_accepted)
         .subscribe("block_added", on_block_added)
